@@ -300,10 +300,10 @@ theorem c18_method_release_never_panics (sc : Script) (h : Handle) (hn : sc.objs
 example : ((runScript Script.init [.acq 0, .poolRel 0, .methRel 0, .poolRel 0]) =
     ["a", "p:cleared", "m:cleared", "p:cleared"]) := by decide
 
-/-- QUIRK (kept visible): `(*Name)(nil).Release()` — the method form on a nil pointer — dereferences
-the receiver (`name.pool`) before the nil guard of `pool.Release` is reached. -/
-theorem nil_receiver_release_panics (sc : Script) (h : Handle) (hn : sc.objs.contains h = false) :
-    scriptStep sc (.methRel h) = .error "panic-nilrecv" := by
+/-- `(*Name)(nil).Release()` — the method form on a nil pointer — is a no-op as well (guarded since
+the repo fix; the script protocol ends with the token `ok-nilrecv`, never with a panic token). -/
+theorem c18_nil_receiver_release_noop (sc : Script) (h : Handle) (hn : sc.objs.contains h = false) :
+    scriptStep sc (.methRel h) = .error "ok-nilrecv" := by
   have hn' : h ∉ sc.objs := by simpa using hn
   simp [scriptStep, hn']
 
